@@ -2335,6 +2335,10 @@ def m_opt_eq(E, st, fid, t, args, dest_ty):
             elif ca is None or cb is None:
                 out.append(('ret', s2, FALSE))
             else:
+                pe = E.plain_eq(s2, ca[1], cb[1])
+                if pe is not None:
+                    out.append(('ret', s2, pe))     # (plain data inside: core's own comparison, not user code)
+                    continue
                 ta, tb = E.rtag(s2, ca[1]), E.rtag(s2, cb[1])
                 s2.log('user', 'core::cmp::PartialEq::eq', (ta, tb))
                 E.stats['user_calls'] += 1
@@ -2348,6 +2352,11 @@ def m_opt_eq(E, st, fid, t, args, dest_ty):
         '?core::cmp::PartialEq::eq', '?core::cmp::PartialEq::ne'],
        'user PartialEq on the referents: arbitrary answer, may unwind')
 def m_ref_eq(E, st, fid, t, args, dest_ty):
+    pe = E.plain_eq(st, args[0], args[1])
+    if pe is not None:
+        if t['callee']['name'] == 'ne':
+            pe = FALSE if pe == TRUE else (TRUE if pe == FALSE else ('boolc', ('Not', pe[1])))
+        return ret(st, pe)
     ta, tb = E.rtag(st, args[0]), E.rtag(st, args[1])
     neg = t['callee']['name'] == 'ne'
     st.log('user', 'core::cmp::PartialEq::eq', (ta, tb))
@@ -2478,7 +2487,13 @@ def m_checked_add(E, st, fid, t, args, dest_ty):
 @model(['core::num::<impl usize>::saturating_add'], 'min(usize::MAX, a + b)')
 def m_saturating_add(E, st, fid, t, args, dest_ty):
     from .interp import add_values
-    return ret(st, add_values(args[0], args[1]))
+    a, b = args[0], args[1]
+    if a[0] == 'int' and b[0] == 'int' and (isinstance(a[1], int) or isinstance(b[1], int)):
+        x, c = (a[1], b[1]) if isinstance(b[1], int) else (b[1], a[1])
+        if isinstance(x, int) or (isinstance(c, int) and st.zone.has_strict_upper_term(x, c)):
+            # a cursor or length stepped by a constant below a known bound: nothing saturates, the plain sum
+            return ret(st, E.binop(st, 'Add', I(x), I(c)))
+    return ret(st, add_values(a, b))
 
 
 @model(['core::num::<impl usize>::wrapping_sub', 'core::num::<impl usize>::wrapping_add'], 'wrapping arithmetic')
@@ -2504,6 +2519,12 @@ def m_max(E, st, fid, t, args, dest_ty):
 def m_saturating_sub(E, st, fid, t, args, dest_ty):
     from .interp import to_aff, aff_add, aff_norm
     a, b = args[0], args[1]
+    if a[0] == 'int' and b[0] == 'int' and not (isinstance(a[1], int) and isinstance(b[1], int)):
+        z = st.zone
+        if z.entails_le(b[1], a[1]):
+            return ret(st, E.binop(st, 'Sub', a, b))        # (nothing saturates: the plain difference)
+        if z.entails_lt(a[1], b[1]):
+            return ret(st, I(0))
     ta, tb = to_aff(a), to_aff(b)
     if ta is None or tb is None:
         return E.opaque_call(st, fid, t, args, dest_ty)
